@@ -250,14 +250,43 @@ def innermost(ant):
     return ant
 
 
+def make_antenna(spec, i):
+    a = StubAnt(i)
+    for _ in range((spec.get("nest") or [0] * spec["nant"])[i]):
+        a = StubSystem(a)
+    return a
+
+
+class DetObj:
+    """a detector that is not a list: iterable with a length; `rebuild()` replaces every antenna object
+    (what re-running Detector.build_antennas does)"""
+
+    def __init__(self, ants):
+        self.ants = list(ants)
+
+    def __iter__(self):
+        return iter(self.ants)
+
+    def __len__(self):
+        return len(self.ants)
+
+    def __getitem__(self, i):
+        return self.ants[i]
+
+    def __setitem__(self, i, a):
+        self.ants[i] = a
+
+
 def make_detector(spec):
-    ants = []
-    for i in range(spec["nant"]):
-        a = StubAnt(i)
-        for _ in range((spec.get("nest") or [0] * spec["nant"])[i]):
-            a = StubSystem(a)
-        ants.append(a)
-    return ants
+    ants = [make_antenna(spec, i) for i in range(spec["nant"])]
+    return DetObj(ants) if spec.get("detobj") else ants
+
+
+def swap_antennas(spec, det, c):
+    """identity replacement of antenna objects before add call number c (spec['swaps'] = {call: [indices]});
+    the detector object handed to set_detector stays the same, its antennas are NEW objects"""
+    for i in (spec.get("swaps") or {}).get(str(c), []):
+        det[i] = make_antenna(spec, i)
 
 
 def ray_tof(c, k, i):
@@ -322,14 +351,15 @@ def make_particles(c, n, fid=0):
     from pyrex.particle import Particle
     ps = []
     for k in range(n):
-        p = Particle(PIDS[(c + 2 * k) % 6], vertex=(float(c), float(k), -1000.5 - fid),
+        # falsy-but-valid values on purpose: weights exactly 0.0, vertex components 0.0 and -0.0
+        p = Particle(PIDS[(c + 2 * k) % 6], vertex=(float(c), -0.0 if (k == 0 and c % 2) else float(k), -1000.5 - fid),
                      direction=DIRS[(c + k) % len(DIRS)], energy=1e8 + 1000 * c + k,
                      interaction_type=["cc", "nc"][(c + k) % 2])
         p.interaction.inelasticity = (1 + (c + 3 * k) % 7) / 8
         p.interaction.em_frac = ((c + k) % 5) / 4
         p.interaction.had_frac = ((2 * c + k) % 9) / 8
-        p.survival_weight = (1 + c % 4) / 8 + k / 64
-        p.interaction_weight = (1 + (c + k) % 16) / 16
+        p.survival_weight = 0.0 if (c + k) % 5 == 0 else (1 + c % 4) / 8 + k / 64
+        p.interaction_weight = 0.0 if (c + 2 * k) % 7 == 3 else (1 + (c + k) % 16) / 16
         ps.append(p)
     return ps
 
@@ -342,13 +372,20 @@ def particle_rows(ps):
     return rows
 
 
+def sx(x):
+    """a float with its sign bit (so that -0.0 and 0.0 differ) """
+    import math
+    x = float(x)
+    return (x, math.copysign(1.0, x))
+
+
 def particle_sig(ev):
-    """signature of the particles of a pyrex Event (as in probes/p12.py)"""
+    """signature of the particles of a pyrex Event (as in probes/p12.py); exact, sign of zero included"""
     import numpy as np
-    return [(int(p.id.value), tuple(float(x) for x in p.vertex),
-             tuple(float(x) for x in np.round(p.direction, 12)), float(p.energy),
-             int(p.interaction.kind.value), float(p.interaction.inelasticity), float(p.interaction.em_frac),
-             float(p.interaction.had_frac), float(p.survival_weight), float(p.interaction_weight)) for p in ev]
+    return [(int(p.id.value), tuple(sx(x) for x in p.vertex),
+             tuple(float(x) for x in np.round(p.direction, 12)), sx(p.energy),
+             int(p.interaction.kind.value), sx(p.interaction.inelasticity), sx(p.interaction.em_frac),
+             sx(p.interaction.had_frac), sx(p.survival_weight), sx(p.interaction_weight)) for p in ev]
 
 
 def sig_of_rows(rows):
@@ -357,11 +394,11 @@ def sig_of_rows(rows):
     out = []
     for r in rows:
         d = dict(zip(PKEYS, r))
-        out.append((int(d["particle_id"]), (d["vertex_x"], d["vertex_y"], d["vertex_z"]),
+        out.append((int(d["particle_id"]), (sx(d["vertex_x"]), sx(d["vertex_y"]), sx(d["vertex_z"])),
                     tuple(float(x) for x in np.round([d["direction_x"], d["direction_y"], d["direction_z"]], 12)),
-                    d["energy"], int(d["interaction_kind"]), d["interaction_inelasticity"],
-                    d["interaction_em_frac"], d["interaction_had_frac"], d["survival_weight"],
-                    d["interaction_weight"]))
+                    sx(d["energy"]), int(d["interaction_kind"]), sx(d["interaction_inelasticity"]),
+                    sx(d["interaction_em_frac"]), sx(d["interaction_had_frac"]), sx(d["survival_weight"]),
+                    sx(d["interaction_weight"])))
     return out
 
 
@@ -551,6 +588,7 @@ def write_file(spec, fn, on_reopen=None):
                 w.set_detector(ants)
                 b.acc += "r"
                 continue
+            swap_antennas(spec, ants, c)
             event, kwargs, rec = build_call(spec, c, op, ants)
             try:
                 w.add(event, **kwargs)
@@ -988,6 +1026,13 @@ def gen_spec(rng, always=True, w=None, max_adds=10, nfaults=None, p_reopen=0.3, 
     # container form of require_trigger and antennas wrapped in 0-2 levels of antenna systems
     spec["rt_tuple"] = bool(rt.startswith("L") and not rt_str and rng.random() < 0.4)
     spec["nest"] = [rng.choice([0, 0, 0, 1, 2]) for _ in range(nant)]
+    # the detector changed in place after set_detector: antenna objects replaced by new ones before some adds
+    spec["detobj"] = rng.random() < 0.3
+    spec["swaps"] = {}
+    if rng.random() < 0.4:
+        for c in range(1, max_adds + 4):
+            if rng.random() < 0.35:
+                spec["swaps"][str(c)] = sorted(rng.sample(range(nant), rng.randint(1, nant)))
     if nfaults is None:
         nfaults = rng.choice([0, 1, 1, 1, 2, 2, 3])
     if n_ok is None:
